@@ -3,8 +3,8 @@
 set -u
 P=$1; PROPS=${2:-all}
 cd /repo
-if ! git diff --quiet; then echo "repo dirty"; exit 2; fi
-git apply --3way "$P" 2>/dev/null || git apply "$P" || { echo "APPLY-FAILED $P"; git checkout -- . ; exit 2; }
+if [ -n "$(git status --porcelain)" ]; then echo "repo dirty"; exit 2; fi
+git apply "$P" || { echo "APPLY-FAILED $P"; git reset -q --hard HEAD; exit 2; }
 /verif/bin/kmcheck -prop "$PROPS" -verif /tmp/kmseed-verif 2>&1 | grep -E "^(FAIL|VIOLATION|     (required|found)|KNOWN)" | cut -c1-400
-git checkout -- . ; git clean -fdq -- . 2>/dev/null
+git reset -q --hard HEAD; git clean -fdq -- . 2>/dev/null
 mkdir -p /tmp/kmseed-verif
